@@ -162,8 +162,27 @@ pub open spec fn marshal_bytes(b: Seq<u8>) -> Seq<u8> { seq![0x73u8] + le32(b.le
 // ---- writer of code objects: the field layout of CPython's marshal.c (w_object, TYPE_CODE) per target version --------------
 /// encodings of the compound fields: written by their own functions (consts_into_bytes, strs_into_bytes, CodeObj::dump_locals),
 /// which are not part of this contract (iterator/closure code) - uninterpreted here, so that only ORDER and PRESENCE are pinned
-pub uninterp spec fn consts_enc(c: Seq<ValueObj>, minor: Option<u8>) -> Seq<u8>;
-pub uninterp spec fn strs_enc(s: Seq<Str>) -> Seq<u8>;
+/// marshal.c w_object for a tuple: TYPE_SMALL_TUPLE ')' + 1-byte length up to 255 elements, TYPE_TUPLE '(' + 4-byte length above
+pub open spec fn tuple_header(n: nat) -> Seq<u8> {
+    if n > 255 { seq![0x28u8] + le32(n as int) } else { seq![0x29u8, n as u8] }
+}
+/// encoding of one constant: ValueObj::into_bytes (scalar arms verified by the Kani unit; uninterpreted here)
+pub uninterp spec fn val_enc(v: ValueObj, minor: Option<u8>) -> Seq<u8>;
+pub open spec fn consts_body(c: Seq<ValueObj>, minor: Option<u8>) -> Seq<u8>
+    decreases c.len()
+{
+    if c.len() == 0 { Seq::<u8>::empty() } else { consts_body(c.drop_last(), minor) + val_enc(c.last(), minor) }
+}
+#[verifier::opaque]
+pub open spec fn consts_enc(c: Seq<ValueObj>, minor: Option<u8>) -> Seq<u8> { tuple_header(c.len()) + consts_body(c, minor) }
+pub open spec fn strs_body(s: Seq<Str>) -> Seq<u8>
+    decreases s.len()
+{
+    if s.len() == 0 { Seq::<u8>::empty() } else { strs_body(s.drop_last()) + marshal_str(s.last().bytes(), true) }
+}
+/// a tuple of interned names
+#[verifier::opaque]
+pub open spec fn strs_enc(s: Seq<Str>) -> Seq<u8> { tuple_header(s.len()) + strs_body(s) }
 pub uninterp spec fn locals_enc(varnames: Seq<Str>, freevars: Seq<Str>, cellvars: Seq<Str>, minor: Option<u8>) -> Seq<u8>;
 pub open spec fn minor_ge(minor: Option<u8>, n: u8) -> bool { minor matches Some(m) && m >= n }
 pub open spec fn opt(cond: bool, s: Seq<u8>) -> Seq<u8> { if cond { s } else { Seq::<u8>::empty() } }
@@ -186,12 +205,16 @@ pub open spec fn layout_d(c: CodeObj, minor: Option<u8>) -> Seq<u8> {
 pub open spec fn code_layout(c: CodeObj, minor: Option<u8>) -> Seq<u8> {
     layout_d(c, minor) + le32(c.firstlineno as int) + marshal_bytes(c.lnotab@) + opt(minor_ge(minor, 11), marshal_bytes(c.exceptiontable@))
 }
-// @trusted: ASSUMED CALLEE CONTRACT consts_into_bytes (codeobj.rs: a loop over ValueObj::into_bytes behind a tuple header): its output is what consts_enc names
-#[verifier::external_body]
-fn consts_into_bytes(consts: Vec<ValueObj>, python_ver: PythonVersion) -> (r: Vec<u8>) ensures r@ == consts_enc(consts@, python_ver.minor) { unimplemented!() }
-// @trusted: ASSUMED CALLEE CONTRACT strs_into_bytes (serialize.rs: tuple header + str_into_bytes per element): its output is what strs_enc names
-#[verifier::external_body]
-fn strs_into_bytes(names: Vec<Str>) -> (r: Vec<u8>) ensures r@ == strs_enc(names@) { unimplemented!() }
+impl Clone for ValueObj {
+    // @trusted: derived Clone on ValueObj returns an equal value (used only by rule R11: by-value iteration -> indexed loop over clones)
+    #[verifier::external_body]
+    fn clone(&self) -> (r: Self) ensures r == *self { unimplemented!() }
+}
+impl ValueObj {
+    // @trusted: ASSUMED CALLEE CONTRACT ValueObj::into_bytes: its output is what val_enc names (scalar arms are verified against the marshal format by the Kani unit)
+    #[verifier::external_body]
+    fn into_bytes(self, python_ver: PythonVersion) -> (r: Vec<u8>) ensures r@ == val_enc(self, python_ver.minor) { unimplemented!() }
+}
 impl CodeObj {
     // @trusted: ASSUMED CALLEE CONTRACT CodeObj::dump_locals (iterator filter/concat: not expressible in Verus): appends what locals_enc names and nothing else
     #[verifier::external_body]
